@@ -11,12 +11,12 @@ ACKS = ("PUBACK", "PUBREC", "PUBCOMP", "SUBACK", "UNSUBACK")
 
 # weight tables: step kind -> weight, by flavour
 FLAVOURS = {
-    "mixed": dict(pub=10, sub=4, unsub=3, ack=14, dupack=2, stray=2, early=1, cross=2, inpub=5, inrel=4,
+    "mixed": dict(pub=10, sub=4, unsub=3, ack=14, dupack=2, stray=2, early=1, cross=2, inpub=5, inburst=1, inrel=4,
                   tick=5, adv=3, setwin=2, settimeout=1, setbw=1, lose=2, disconnect=1, pingresp=1,
                   reconnect=6, stale=1, dupconnack=1),
     "pubflow": dict(pub=16, ack=16, dupack=3, stray=2, early=2, cross=2, tick=6, adv=2, setwin=3, lose=1,
                     reconnect=5, settimeout=1, setbw=1),
-    "subflow": dict(sub=8, unsub=7, ack=10, dupack=2, stray=2, cross=2, inpub=8, inrel=7, tick=4, adv=2,
+    "subflow": dict(sub=8, unsub=7, ack=10, dupack=2, stray=2, cross=2, inpub=8, inburst=2, inrel=7, tick=4, adv=2,
                     setwin=3, lose=1, reconnect=5),
     "lossy": dict(pub=10, sub=3, unsub=3, ack=8, inpub=3, inrel=2, tick=3, adv=1, setwin=1, lose=6,
                   disconnect=2, reconnect=10, stale=2),
@@ -82,7 +82,7 @@ class Walker(object):
         k = r.choices(self.kinds, self.weights)[0]
         if k == "pub":
             return ("pub", a, r.choice([0, 1, 1, 2, 2]), r.random() < 0.2, r.choice([0, 1, 5, 200]),
-                    r.choice(["plain", "plain", "uni"]), r.choice(["bytearray", "str", "ustr"]))
+                    r.choice(["plain", "plain", "uni", "same"]), r.choice(["bytearray", "str", "ustr"]))
         if k == "sub":
             return ("sub", a, r.choice(["str", "tuple", "list"]), r.choice([1, 2, 3]), r.choice([0, 1, 2]))
         if k == "unsub":
@@ -108,6 +108,10 @@ class Walker(object):
             return ("inpub", a, r.choice([0, 1, 2, 2]), r.random() < 0.3, r.random() < 0.3,
                     r.choice(["new", "new", "reuse", "repeat"]), r.choice([0, 2, 300]),
                     r.choice(["plain", "uni"]))
+        if k == "inburst":
+            if w.cfg.re_disc_on is not None:      # (what follows a disconnect() in the same segment is rightly ignored: not for the per-step oracles)
+                return ("inpub", a, 1)
+            return ("inburst", a, tuple(r.choice([0, 1, 2]) for _ in range(r.choice([2, 2, 3, 5]))))
         if k == "inrel":
             return ("inrel", a, r.choice(["known", "known", "repeat", "unknown"]), r.random() < 0.3)
         if k == "tick":
